@@ -94,7 +94,11 @@ func TestVerifDriverC09(t *testing.T) {
 		}
 	}()
 	var incs, samples, timers int64
-	for round := 0; round < 60 && atomic.LoadInt64(&fails) == 0; round++ {
+	nRounds := 60
+	if os.Getenv("VERIF_DRIVER_REASON") == "thorough" {
+		nRounds = 400 // thorough tier
+	}
+	for round := 0; round < nRounds && atomic.LoadInt64(&fails) == 0; round++ {
 		parent := root.SubScope(fmt.Sprintf("p%d", round%3))
 		name := fmt.Sprintf("m%d", round)
 		var (
